@@ -9,6 +9,7 @@ CONSTANTS
   FineTime = TRUE
   SlowWrites = FALSE
   SlowRtx = "no"
+  IgnoreToo = TRUE
   FailAts = {0, 1, 2, 7}
   MaxDepth = 6
 CONSTRAINT DepthBound
